@@ -22,7 +22,8 @@ func init() {
 			"R4 cancel ownership: runRead calls the returned cancel before returning; the blob-reader variant calls it on the error path and otherwise stores it in the returned reader, whose Close closes the underlying reader and then calls it; " +
 			"R5 an error that was not received from a member is returned only on the `<-ctx.Done()` arm. " +
 			"R4b blobReader.Close cancels on every path; every caller of runReadWithCancel cancels, hands the cancel to the returned reader, or returns it; R6 (as C15.R6). " +
-			"R7 inside a read helper's callback every member call uses the context handed to the callback.",
+			"R7 inside a read helper's callback every member call uses the context handed to the callback. " +
+			"R1b the channel the member goroutines send their answers on is unbuffered.",
 		NotDecided: "wall-clock behaviour of slow members and actual goroutine scheduling are not decided; the rules decide the shape that makes every answer order and cancellation point leak-free.",
 		Technique:  "static analysis: goroutine/channel shape on SSA (select arms, deferred close), typestate of received results, dominance",
 	})
@@ -57,6 +58,7 @@ func runC16(c *core.Ctx) {
 	cancelBeforeReturnNotForReaders(c, "C16.R6")
 	readerCloseAlwaysCancels(c, "C16.R4")
 	memberCallsUseMemberContext(c, "C16.R7")
+	resultChannelUnbuffered(c, "C16.R1")
 	c16Both(c)
 }
 
